@@ -275,6 +275,17 @@ def nts_resolves(k):
     return k < 5000 or k in (9000, 9001)
 
 
+def nts_addr(k, port):
+    """the socket address (one number, as in the harness) server name k and NTP port resolve to; None: no address"""
+    if not nts_resolves(k):
+        return None
+    return (9000 if k == 9001 else k) * 65536 + port
+
+
+def coq_opt(a):
+    return "None" if a is None else "(Some %s)" % vplib.zlit(a)
+
+
 def srv_key(s):
     """the name a source reached through SRV name s is filed under; s = 0 is the string "localhost", which is also
     what an answer without Server record (k = 9000) gives on a connection without SRV name"""
@@ -290,11 +301,11 @@ def nts_coq_input(case):
             for b in op[1]:
                 if srv:
                     name = "None" if b[1] < 0 else "Some %s" % vplib.zlit(srv_key(b[1]))
-                    beh = ("SbOk %s %s" % (vplib.zlit(b[2]), vplib.blit(nts_resolves(b[2]))) if b[0] == "O" else
+                    beh = ("SbOk %s %s" % (vplib.zlit(b[2]), coq_opt(nts_addr(b[2], b[3]))) if b[0] == "O" else
                            {"E": "SbError", "P": "SbError", "H": "SbTimeout", "X": "SbRefused"}[b[0]])
                     outs.append("(%s, %s)" % (name, beh))
                 elif b[0] == "O":
-                    outs.append("KeOk None %s %s" % (vplib.zlit(b[1]), vplib.blit(nts_resolves(b[1]))))
+                    outs.append("KeOk None %s %s" % (vplib.zlit(b[1]), coq_opt(nts_addr(b[1], b[2]))))
                 else:
                     outs.append({"E": "KeError", "P": "KeError", "H": "KeTimeout", "X": "KeNoLookup"}[b[0]])
             if srv:
@@ -308,7 +319,7 @@ def nts_coq_input(case):
 
 
 def nts_split_output(case, out):
-    """-> (records, final current) or None; record for T: ("T", connections, [(id, name)...], complete)"""
+    """-> (records, final current) or None; record for T: ("T", connections, [(id, name, address)...], complete)"""
     try:
         v = [int(x) for x in out[:-1]]      # the last token is the same-address observation
     except ValueError:
@@ -319,14 +330,14 @@ def nts_split_output(case, out):
         for op in case["ops"]:
             if op[0] == "T":
                 conns, n = v[p], v[p + 1]; p += 2
-                evs = [(v[p + 2 * j], v[p + 2 * j + 1]) for j in range(n)]; p += 2 * n
+                evs = [(v[p + 3 * j], v[p + 3 * j + 1], v[p + 3 * j + 2]) for j in range(n)]; p += 3 * n
                 recs.append(("T", conns, evs, v[p])); p += 1
                 if case.get("srv", 0):
                     p += 1          # length of known_resolutions
             else:
                 recs.append(("R", v[p])); p += 1
         n = v[p]; p += 1
-        cur = [(v[p + 2 * j], v[p + 2 * j + 1]) for j in range(n)]; p += 2 * n
+        cur = [(v[p + 3 * j], v[p + 3 * j + 1], v[p + 3 * j + 2]) for j in range(n)]; p += 3 * n
     except IndexError:
         return None
     if p != len(v):
@@ -336,17 +347,24 @@ def nts_split_output(case, out):
 
 def nts_monitor(case, out):
     """the property on one run of the real NtsPoolSpawner, from the SpawnEvents and the removals only:
-    never more than count active sources, never two active sources with the same remote name"""
+    never more than count active sources, never two active sources with the same remote name, never two active
+    sources with the same socket address"""
     if out and out[0] == "PANIC":
         return None     # a consistency check of the harness failed: the comparison with the model reports it
     r = nts_split_output(case, out)
     if r is None:
         return None
     active = {}
+    active_addr = {}
     created = []
     for k, (op, rec) in enumerate(zip(case["ops"], r[0])):
         if op[0] == "T":
-            for sid, name in rec[2]:
+            for sid, name, sockaddr in rec[2]:
+                if sockaddr in active_addr.values() and name not in active.values():
+                    return ("two active NTS pool sources at the same socket address %d:%d although their remote names differ "
+                            "(operation %d of: %s)" % (sockaddr // 65536, sockaddr % 65536, k, nts_line_of(case)),
+                            {"class": "C35-nts-pool-same-address", "count": case["count"], "operations": case["ops"][:k + 1],
+                             "active_before": sorted(active.items()), "event": [sid, name, sockaddr]})
                 what = None
                 if name in active.values():
                     what = "two active NTS pool sources for the same remote name #%d" % name
@@ -357,9 +375,11 @@ def nts_monitor(case, out):
                             {"count": case["count"], "operations": case["ops"][:k + 1],
                              "active_before": sorted(active.items()), "event": [sid, name]})
                 active[sid] = name
+                active_addr[sid] = sockaddr
                 created.append(sid)
         elif op[1] < len(created):
             active.pop(created[op[1]], None)
+            active_addr.pop(created[op[1]], None)
     if out and out[-1] == "1":
         # the harness saw two current sources of the real NtsPoolSpawner at one socket address (their remote NAMES
         # differ): by the property text (never two active sources for the same server address) a failing history;
@@ -373,7 +393,7 @@ class NtsSim:
     """generator aid only: guesses the active sources so that removals mostly hit one"""
 
     def __init__(self, count, srv):
-        self.count, self.srv, self.cur, self.n = count, srv, [], 0
+        self.count, self.srv, self.cur, self.n, self.addrs = count, srv, [], 0, {}
 
     def names(self):
         return [x for _, x in self.cur]
@@ -392,12 +412,15 @@ class NtsSim:
             if b[0] == "O":
                 k = b[2] if self.srv else b[1]
                 key = srv_key(b[1]) if (self.srv and b[1] >= 0) else k
-                if nts_resolves(k) and key not in self.names():
+                a = nts_addr(k, b[3] if self.srv else b[2])
+                if a is not None and key not in self.names() and a not in self.addrs.values():
                     self.cur.append((self.n, key))
+                    self.addrs[self.n] = a
                     self.n += 1
 
     def remove(self, j):
         self.cur = [(i, a) for i, a in self.cur if i != j]
+        self.addrs.pop(j, None)
 
 
 def nts_gen_case(rng, stats, hang, srv):
@@ -487,6 +510,10 @@ def nts_correspondence(c, cases, stats):
     def coq_case(case, out):
         if out and out[0] == "PANIC":
             return nts_coq_input(case), "[(-999)%Z]"
+        if out and out[-1] == "1":
+            # two sources at one socket address: the unrepaired code (the monitor reports the finding); the model is
+            # the repaired code, nothing to compare on this history
+            return None
         try:
             o = vplib.coq_list([vplib.zlit(int(x)) for x in out[:-1]])      # without the same-address observation
         except ValueError:
@@ -635,9 +662,11 @@ def main():
         "localhost; rustls matches case-insensitively, the spawner compares strings exactly)",
         "NTS pool timeouts are real: a never-answered connection costs NTS_TIMEOUT = 5 s of wall time; an exchange that takes "
         "longer than 5 s on an overloaded machine would show up as a model mismatch (not as a failing input)",
-        "theorem C35_nts_pool_bounded_distinct_names_partial stays partial: distinctness is by remote name; the harness observes "
-        "real runs with two current sources at one socket address (distribution: nts_cases_with_two_current_sources_at_the_"
-        "same_socket_address)",
+        "the NTS pool model is the code WITH the repair of branch fix-c35-nts (resolved socket address kept per source, a key "
+        "exchange result whose address already has a source is skipped); resolved addresses are part of the oracle outcome. On a "
+        "tree without the repair the harness sees two current sources at one socket address: those histories are reported as "
+        "the finding C35-nts-pool-same-address (monitor, from the SpawnEvents) and are not compared with the model "
+        "(distribution: nts_cases_with_two_current_sources_at_the_same_socket_address)",
     ]
     return c.finish()
 
@@ -651,20 +680,21 @@ MANIFEST = {
             "spawner's current_sources equals the active set of the trace (C35_state_is_active) and is_complete holds exactly "
             "when count is reached (C35_complete_iff). The model is the code with the repair of branch fix-c35; the same model "
             "without the repair violates distinctness on count=2, answer [A;A] (C35_distinct_refuted_before_fix), which is "
-            "what the check reports with a replay on a tree without the fix. NTS pool (C35_nts_pool_bounded_distinct_names_"
-            "partial): for every count and every history of spawn rounds (any outcome of connection, key exchange and name "
-            "resolution per loop iteration) and removals, at most `count` sources and pairwise different remote NAMES; tied to "
-            "the real NtsPoolSpawner through real key exchanges against a scripted server on loopback, without and with SRV "
-            "resolution (C35_nts_tie_runs_the_model, C35_nts_srv_tie_runs_the_model: the compared functions run the model of "
-            "the theorem). Partial because the property speaks of server addresses: different names resolving to one socket "
-            "address are not excluded, neither by the theorem nor by the code (observed on the real spawner).",
+            "what the check reports with a replay on a tree without the fix. NTS pool (C35_nts_pool_bounded_distinct): for every "
+            "count and every history of spawn rounds (any outcome of connection, key exchange and name resolution per loop "
+            "iteration, any names, any resolved addresses) and removals, at most `count` sources, pairwise different remote names "
+            "and pairwise different socket addresses; the model is the code with the repair of branch fix-c35-nts, the same "
+            "model without the address test violates address distinctness (C35_nts_pool_distinct_refuted_before_fix), which the "
+            "check reports as finding C35-nts-pool-same-address on a tree without the repair. Tied to the real NtsPoolSpawner "
+            "through real key exchanges against a scripted server on loopback, without and with SRV resolution "
+            "(C35_nts_tie_runs_the_model, C35_nts_srv_tie_runs_the_model: the compared functions run the model of the theorem).",
     "note": "Trusted: Coq kernel+vm_compute; hand-written model coq/Model/Pool.v (incl. the model of lookup() for the SRV queue); "
             "harnesses harness/ntpd/c35.rs, harness/ntpd/c35n.rs + this driver; DNS answers as oracle (scripted via "
             "with_hardcoded_dns under cfg(test)); freshness of ClockId::new(). NTS pool: connection / key exchange / resolution "
             "outcomes are oracles of the model, produced in the tie by ntp-proto's real KeyExchangeServer with the repository's "
             "test certificate and scripted per connection; not exercised: resolve_ke (DNS, SRV lookup), resolutions left over "
             "from an earlier round, a pool that honours the denied-server list, TLS failures other than a dropped connection. "
-            "NTS pool distinctness is by remote name, not by resolved socket address (the code does not compare addresses "
-            "there); its config has no ignore list. Print Assumptions: closed under the global context for all theorems.",
+            "The NTS pool config has no ignore list. The spawner's own copy of the address (field added by the repair) is not read by "
+            "the harness (it must build on unrepaired trees): addresses are taken from the SpawnEvents. Print Assumptions: closed under the global context for all theorems.",
     "design_ref": "DESIGN.md 3 C35, 4 row 8",
 }
